@@ -111,6 +111,8 @@ prop('C05',
            'non-trivial = input length >= 2 and (capacity < length or a quiescent point with a blocked producer / full buffer); distinct = different canonical scenario'),
      assumptions=E3_ASSUME,
      parts=[
+         dict(name='seq', engine='E3', pkg='pipes', test='TestC05Seq',
+              quick=dict(cases=10000, shards=1), thorough=dict(cases=200000, shards=8, timeout=3000)),
          dict(name='rapid', engine='E3', pkg='pipes', test='TestC05',
               quick=dict(cases=20000, shards=4), thorough=dict(cases=900000, shards=16, timeout=3000)),
      ],
